@@ -266,7 +266,10 @@ func NewPri() *Pri {
 	c, _ := cpu65c816.New(b)
 	// the InitFrom object is derived from a CPU written as a struct literal (never passed through New/Init):
 	// all three ways of making a CPU that work on the library are in use
-	lit := &cpu65c816.CPU{Bus: b}
+	// ... and that literal is bound to ANOTHER (empty) bus, like a CPU taken from another machine or a
+	// restored register snapshot: InitFrom's bus argument decides where the new CPU lives
+	ob, _ := bus.New()
+	lit := &cpu65c816.CPU{Bus: ob}
 	c2 := &cpu65c816.CPU{}
 	c2.InitFrom(lit, b)
 	return &Pri{B: b, C: c, cInit: c, cFrom: c2, M: m}
@@ -329,6 +332,21 @@ func (p *Pri) Reset() (pn interface{}) {
 func (p *Pri) Disasm() (o []byte, pn interface{}) {
 	defer func() { pn = recover() }()
 	o = p.C.DisassembleCurrentPC(nil)
+	return
+}
+
+// DisasmInto renders into a buffer that already holds text (the accumulate loop
+// trace = cpu.DisassembleCurrentPC(trace)): the result is the old content followed by the line.
+func (p *Pri) DisasmInto(buf []byte) (o []byte, pn interface{}) {
+	defer func() { pn = recover() }()
+	o = p.C.DisassembleCurrentPC(buf)
+	return
+}
+func (p *Alt) DisasmInto(buf []byte) (o []byte, pn interface{}) {
+	defer func() { pn = recover() }()
+	b := bytes.NewBuffer(buf) // the alternative interpreter's tracer writes to an io.Writer: one that holds text already
+	p.C.DisassembleCurrentPC(b)
+	o = b.Bytes()
 	return
 }
 func (p *Pri) TriggerIRQ()                 { p.C.TriggerIRQ() }
